@@ -500,6 +500,12 @@ def run_binding(idx, order):
     elif order == 3:
         # the certificate's name also matches a rule written with literals that has no signer: the other match still counts
         text = '\n'.join(lines[:3] + ['#lit: #site/"user"/"a"/"b"/#KEY'] + lines[3:]) + '\n'
+    elif order in (5, 6):
+        # sibling rules that share the named patterns and then go on with a literal where the packet rule has a pattern; their signer
+        # is a key nobody holds, so they change no verdict (written after / before the packet rules)
+        sib = ('#other: #site/"other"/#KEY <= #anchor\n#dl1: #site/"data"/u/"b" <= #other\n#dl2: #site/"doc"/x/"a" <= #other\n'
+               '#dl3: #site/"rec"/v/y/"a" <= #other\n#dl4: #site/"data"/"c"/v <= #other\n')
+        text = SCHEMA_BIND + sib if order == 5 else '\n'.join(lines[:3]) + '\n' + sib + '\n'.join(lines[3:]) + '\n'
     else:
         # the packet rule defined a second time with the same name pattern and the anchor as signer: both definitions count
         text = SCHEMA_BIND + ''.join(ln.split('<=')[0] + '<= #anchor\n' for ln in mine)
@@ -814,7 +820,7 @@ def unit(arg):
                 acc.violation(sig, what, {'kind': 'storage', 'depth': depth})
         acc.sample({'storage': 'explicit storage that keeps nothing, depths 1..4'})
     elif arg['kind'] == 'binding':
-        for order in (0, 1, 2, 3, 4):
+        for order in (0, 1, 2, 3, 4, 5, 6):
             for idx in range(len(BIND_PACKETS)):
                 viol, key = run_binding(idx, order)
                 acc.evaluations += 1
